@@ -56,8 +56,16 @@ pub fn pollute(r: &mut Rng) {
                 let pred: Vec<Option<usize>> = (0..n).map(|_| if r.chance(0.15) { None } else { Some(r.below(n)) }).collect();
                 let t = PredecessorTree::from(pred);
                 let (s, x) = (r.below(n), r.below(n));
-                let _ = catch(|| t.search(s, x));
-                let _ = catch(|| t.search_by(s, |_, p| p.is_none()));
+                // (bounded: a search that never ends must not hang the pollution step)
+                let calls = std::cell::Cell::new(0usize);
+                let tick = |hit: bool| {
+                    calls.set(calls.get() + 1);
+                    assert!(calls.get() <= 4 * n + 16, "harness: pollution search gave up");
+                    hit
+                };
+                let _ = catch(|| t.search_by(s, |&v, _| tick(v == x)));
+                calls.set(0);
+                let _ = catch(|| t.search_by(s, |_, p| tick(p.is_none())));
             }
             1 => {
                 // a constructor that unwinds half-way through its input
